@@ -194,6 +194,30 @@ func Apply(pkgs []*packages.Package, modPath string, baseline map[string]bool) (
 		if err != nil {
 			return res, fmt.Errorf("re-checking %s: %v", p.PkgPath, err)
 		}
+		// `p := &T{...}` → `p__s := T{...}; p := &p__s` (sroa.go), on a private copy, re-checked
+		if os.Getenv("GFS3_NO_SROA") == "" {
+			cs := &pkgState{orig: map[ast.Node]ast.Node{}}
+			var cfiles []*ast.File
+			for _, f := range files {
+				cf := cs.clone(f).(*ast.File)
+				cf.Imports = nil
+				for _, d := range cf.Decls {
+					if gd, ok := d.(*ast.GenDecl); ok && gd.Tok == token.IMPORT {
+						for _, sp := range gd.Specs {
+							cf.Imports = append(cf.Imports, sp.(*ast.ImportSpec))
+						}
+					}
+				}
+				cfiles = append(cfiles, cf)
+			}
+			if n := normalizePtrLits(cfiles, info, cs.orig); n > 0 {
+				if tp2, info2, err2 := recheck(p, cfiles, rechecked); err2 == nil {
+					files, tp, info = cfiles, tp2, info2
+				} else {
+					res.Fallback = append(res.Fallback, p.PkgPath+" (pointer literal normalisation): "+err2.Error())
+				}
+			}
+		}
 		// scalar replacement of local struct variables (sroa.go), on a private copy
 		if os.Getenv("GFS3_NO_SROA") == "" {
 			cs := &pkgState{orig: map[ast.Node]ast.Node{}}
